@@ -879,3 +879,4 @@ MANIFEST = {
     "uncertainty operator (C19), '%' (rewritten to 'percent' by the default preprocessor). Powers beyond ~1e6 bits are skipped on both sides.",
     "ref": "DESIGN.md §4 C07",
 }
+MANIFEST["text"] += ' Quantity-valued exponents: 6 bases x 13 exponent expressions (km / m, min / s, 50 percent, 2 m / m, a dimensional one, ...) x ** and ^ x 3 registries against Python evaluation on the quantities.'
